@@ -160,4 +160,18 @@ func WorkerPool.Start
   ghost before call WorkerPool.startDispatcher: assert waited && w.isRunning
   ghost before call WorkerPool.startWorkers: assert waited && w.isRunning
   ensures unlocked(w.mutex) && r0 == w
+-- pools of a group cancel their pending tasks on shutdown BY DEFAULT: the default is the first option handed to New, the
+-- caller's options follow it in their order (options are applied in order: an explicit choice of the caller wins)
+global cancelopt BoolArr      -- option value -> made by WithCancelPendingTasksOnShutdown (ghost)
+func WithCancelPendingTasksOnShutdown
+  modifies ghost(cancelopt)
+  ghost at return: cancelopt = upd(cancelopt, r0, true)
+  ensures sel(cancelopt, r0)
+-- (checked for the order of the options only - opt only-ghost-asserts)
+func Group.CreatePool
+  opt only-ghost-asserts
+  requires g != nil
+  modifies everything
+  ghost before call New: assert len(arg1) == len(opts) + 1 && sel(cancelopt, arg1[0])
+  ghost before call New: assert forall i Int :: 0 <= i && i < len(opts) ==> arg1[i + 1] == opts[i]
 @*/
